@@ -208,7 +208,7 @@ def check_toys_exact(rng, shard, backend, ntoys):
     nmax = [int(max(b + 10 * s, 30) + 40) for s, b in zip(ss, bs)]
     grids = [range(n + 1) for n in nmax]
     import itertools
-    p_sb = p_b = p_tie_sb = 0.0
+    p_sb = p_b = p_tie_sb = p_tie_b = 0.0
     alt_mu = 1.0 if ts == "q0" else 0.0   # the "background-like" sample of pyhf: mu=0 (q, qtilde) or mu=1 (q0)
     for ns in itertools.product(*grids):
         w_sb = math.prod(pois_pmf(n, mu_eff * s + b) for n, s, b in zip(ns, ss, bs))
@@ -221,22 +221,28 @@ def check_toys_exact(rng, shard, backend, ntoys):
             p_b += w_b
         if abs(q - q_obs) <= 1e-6:
             p_tie_sb += w_sb
+            p_tie_b += w_b
     # pyhf reports for q/qtilde: tails = [CLsb, CLb]; for q0: main = CLsb (p0 under mu=0), tails = [CLb]
     pairs = []
     if ts == "q0":
-        pairs = [("p0 (tail under mu=0)", main, p_sb), ("tail under mu=1", tails[0], p_b)]
+        pairs = [("p0 (tail under mu=0)", main, p_sb, p_tie_sb), ("tail under mu=1", tails[0], p_b, p_tie_b)]
     else:
-        pairs = [("CL_s+b", tails[0], p_sb), ("CL_b", tails[1], p_b)]
+        pairs = [("CL_s+b", tails[0], p_sb, p_tie_sb), ("CL_b", tails[1], p_b, p_tie_b)]
+    # When the observed statistic sits in the zeroed region (q_obs = 0 mathematically: fitted POI at its bound or beyond
+    # the tested value) pyhf's value is fit noise of order 1e-9 on either side of the toys' own noise, so the tie mass at
+    # zero may or may not be counted; for q_obs > 0 identical counts give bit-identical statistics and ties are exact.
+    zero_region = q_obs < 1e-6
     bad = []
-    for label, got, exact in pairs:
+    for label, got, exact, tie in pairs:
         window = 6 * math.sqrt(max(exact * (1 - exact), 1e-12) / ntoys) + 1.0 / ntoys
-        if abs(got - exact) > window:
-            bad.append(f"{label}: toy estimate {got:.4f}, exact {exact:.4f} (window {window:.4f})")
+        lo_ok = exact - (tie if zero_region else 0.0) - window
+        if not (lo_ok <= got <= exact + window):
+            bad.append(f"{label}: toy estimate {got:.4f}, exact {exact:.4f} (window {window:.4f}{', tie mass at zero ' + format(tie, '.3f') if zero_region else ''})")
     if bad:
         shard.violate(f"C14/toy-vs-exact:{ts}", "; ".join(bad) + f"; s={ss} b={bs} n_obs={obs} mu={mu} P(q=q_obs)={p_tie_sb:.3f} ntoys={ntoys} seed={seed} backend={backend}", case, "toy_vs_exact")
     else:
         shard.ok("toy_vs_exact", len(pairs))
-        if all(0.02 < e < 0.98 for _, _, e in pairs) and p_tie_sb > 0.01:
+        if all(0.02 < e < 0.98 for _, _, e, _ in pairs) and p_tie_sb > 0.01:
             shard.nontrivial("toys", ss, bs, obs, mu, ts, backend)
             shard.covered("toy_ties", "P(q = q_obs) > 1%")
     shard.covered("toy_statistics", ts)
